@@ -184,6 +184,13 @@ Definition union_m (ms : list machine) : machine := fun s o =>
   end.
 
 (* ---------- overlay ---------- *)
+(* number of entries kept anywhere in a state tree: bounds what any store can enumerate, hence the rounds of the
+   refill loop below (overlay.EnumerateBlobs loops until a round sees nothing; the cursor advances in every round) *)
+Fixpoint size_of (s : st) : nat :=
+  match s with
+  | SLeaf m => length m
+  | SNode ks aux => fold_right (fun k a => size_of k + a)%nat (length aux) ks
+  end.
 Definition one : bytes := [49].
 Definition not_deleted (d : smap) (p : bytes * bytes) : bool := match lookup (fst p) d with Some _ => false | None => true end.
 
@@ -241,7 +248,7 @@ Definition overlay (has_del : bool) (ml mu : machine) : machine := fun s o =>
           | _ => (SNode [sl; su'] d, xu)
           end
       | Enum c n =>
-          let '(sl', su', l) := overlay_enum (S (S n)) ml mu sl su d c n in (SNode [sl'; su'] d, OEnum l)
+          let '(sl', su', l) := overlay_enum (S (S (n + size_of sl + size_of su))) ml mu sl su d c n in (SNode [sl'; su'] d, OEnum l)
       end
   | _ => (s, OErr EOther)
   end.
